@@ -57,7 +57,7 @@ def variants(recipe, rng):
     if recipe.get("long_repeat") and n:
         # repetition until the column has well over 1000 rows (twice: any sampling draws differently)
         k = -(-1200 // n)
-        for _ in range(2):
+        for _ in range(12 if str(recipe.get("stream", "")).startswith("corpus:minority-complex") else 2):
             r = dict(recipe)
             r["values"] = vals * k
             r["index"] = "default"
@@ -114,12 +114,13 @@ def run(tier, seed, n=None, nproc=16):
                {"values": [["str", "05"], ["str", "2"]], "dtype": "object", "index": "default", "name": None, "stream": "corpus:leading-zero-int"}] + recipes
     # k-fold repetition up to >= 1200 rows for a deterministic set of minority-value columns and every 12th recipe
     recipes = [{"values": [["str", "1.5"]] * 7 + [["str", "1j"]], "dtype": "object", "index": "default", "name": None, "stream": "corpus:minority-complex"},
+               {"values": [["str", "2.5"]] * 15 + [["str", "3j"]], "dtype": "str", "index": "default", "name": None, "stream": "corpus:minority-complex2"},
                {"values": [["str", "1"]] * 5 + [["str", "2.5"]], "dtype": "object", "index": "default", "name": None, "stream": "corpus:minority-float"},
                {"values": [["float", 1.0]] * 6 + [["float", 0.5]], "dtype": "float64", "index": "default", "name": None, "stream": "corpus:minority-fraction"},
                {"values": [["str", "a"]] * 4 + [["int", 3]], "dtype": "object", "index": "default", "name": None, "stream": "corpus:minority-int"},
                {"values": [["str", "yes"]] * 7 + [["str", "maybe"]], "dtype": "object", "index": "default", "name": None, "stream": "corpus:minority-text"}] + recipes
     for i, r in enumerate(recipes):
-        if i < 5 or i % 12 == 0:
+        if i < 6 or i % 12 == 0:
             r["long_repeat"] = True
     chunks = [recipes[i::nproc] for i in range(nproc)]
     with mp.Pool(nproc) as pool:
